@@ -69,7 +69,7 @@ func runC20(c *Ctx) {
 	// map-range loops of a function: blocks of the natural loop of each Next over a map
 	mapLoopBlocks := func(fn *ssa.Function) map[*ssa.BasicBlock]string {
 		out := map[*ssa.BasicBlock]string{}
-		for _, b := range fn.Blocks {
+		for _, b := range m.blocksOf(fn) {
 			for _, in := range b.Instrs {
 				nx, ok := in.(*ssa.Next)
 				if !ok || nx.IsString {
@@ -168,7 +168,7 @@ func runC20(c *Ctx) {
 	// no goroutines / map ranges feeding ordered output in FindRedirects and its closures
 	bad = ""
 	for _, fn := range append([]*ssa.Function{find}, closuresIn(find)...) {
-		for _, b := range fn.Blocks {
+		for _, b := range m.blocksOf(fn) {
 			for _, in := range b.Instrs {
 				if _, ok := in.(*ssa.Go); ok {
 					bad = "a goroutine is started while the table is collected: completion order is not reproducible"
